@@ -98,8 +98,9 @@ def bad_orders(rng, n):
 
 class Permute(Family):
     name = "permute"
-    theorems = ("C07_permute_at_dense", "C07_permute_at_sparse", "C07_permute_inverse_dense", "C07_permute_agree",
-                "C07_permute_rejects")
+    theorems = ("C07_permute_at_dense", "C07_permute_at_sparse", "C07_permute_at_ktensor", "C07_permute_at_ttensor",
+                "C07_permute_spec", "C07_permute_full_ktensor", "C07_permute_full_ttensor", "C07_permute_rejects_dense",
+                "C07_permute_rejects_others", "C07_permute_rejects_ttensor")
 
     def gen(self, rng, tier):
         out = []
@@ -129,7 +130,7 @@ class Permute(Family):
         return {"core": dense_case(rng, core), "factors": [gen.matrix(rng, m, c) for m, c in zip(s, core)]}
 
     def evaluate(self, cases):
-        impls, reqs = [], []
+        impls, reqs, objs = [], [], []
         for c in cases:
             o = np.array(c["order"], dtype=int)
             x = c["x"]
@@ -152,9 +153,10 @@ class Permute(Family):
                 impls.append(call(lambda t=t, o=o: {"core": dense_j(t.permute(o).core),
                                                      "factors": [jval(f) for f in t.permute(o).factor_matrices]}))
                 reqs.append({"op": "t_permute", "T": x, "order": c["order"]})
+            objs.append(t)
         models = drive(reqs)
         out = []
-        for c, impl, m in zip(cases, impls, models):
+        for c, impl, m, t in zip(cases, impls, models, objs):
             n = len(c["order"])
             tags = [c["rep"], f"N{n}", "bad" if c["bad"] else "perm"]
             ident = c["order"] == list(range(n))
@@ -175,6 +177,18 @@ class Permute(Family):
                 got = ic["ok"] if c["rep"] == "dense" else sp_to_dense_j(ic["ok"])
                 if not deep_eq(got, spec):
                     v = Verdict("violation", "permute moved an entry to the wrong position", impl, m, spec, tags)
+            # ... and for the Kruskal / Tucker holders through the array they denote (full())
+            if v.status == "ok" and "ok" in ic and c["rep"] in ("ktensor", "ttensor") and not c["bad"]:
+                o = np.array(c["order"], dtype=int)
+                fr = call(lambda t=t, o=o: (dense_j(t.full()), dense_j(t.permute(o).full())))
+                if "ok" not in fr:
+                    v = Verdict("violation", f"{c['rep']}: full() of the permuted holder raised", fr, m, None, tags)
+                else:
+                    before, after = fr["ok"]
+                    spec = spec_permute(before["shape"], dense_at(before), c["order"])
+                    if not deep_eq(after, spec):
+                        v = Verdict("violation", f"{c['rep']}.permute denotes an array other than the permuted one",
+                                    after, m, spec, tags)
             if c["bad"] and "ok" in ic:
                 v = Verdict("violation", f"{c['rep']}.permute accepted the non-permutation {c['order']}", impl, m, None, tags)
             out.append(v)
@@ -186,7 +200,8 @@ class Permute(Family):
 
 class Reshape(Family):
     name = "reshape"
-    theorems = ("C07_reshape_at_dense", "C07_reshape_at_sparse", "C07_reshape_back_dense", "C07_reshape_rejects")
+    theorems = ("C07_reshape_at_dense", "C07_reshape_at_sparse", "C07_sp_reshape_partial", "C07_reshape_rejects",
+                "C07_empty_sparse")
 
     def gen(self, rng, tier):
         out = []
@@ -279,7 +294,7 @@ class Reshape(Family):
 
 class Squeeze(Family):
     name = "squeeze"
-    theorems = ("C07_squeeze_at_dense", "C07_squeeze_at_sparse")
+    theorems = ("C07_squeeze_at_dense", "C07_squeeze_at_sparse", "C07_empty_sparse")
 
     def gen(self, rng, tier):
         out = []
@@ -325,7 +340,8 @@ class Squeeze(Family):
 class Roundtrip(Family):
     """permute then inverse permute; reshape and back; dense and sparse agree (on the implementation)."""
     name = "roundtrip_agree"
-    theorems = ("C07_permute_inverse_dense", "C07_reshape_back_dense", "C07_permute_agree", "C07_reshape_agree")
+    theorems = ("C07_permute_inverse_dense", "C07_permute_inverse_sparse", "C07_reshape_back_dense",
+                "C07_permute_full_sparse", "C07_reshape_full_sparse")
 
     def gen(self, rng, tier):
         out = []
@@ -371,5 +387,149 @@ class Roundtrip(Family):
         return out
 
 
+def tucker_j(t):
+    return {"core": dense_j(t.core), "factors": [jval(np.asarray(f)) for f in t.factor_matrices]}
+
+
+class Holders(Family):
+    """ONE array held as tensor, sptensor, ktensor and ttensor (superdiagonal core): the four permutes denote the
+    permuted array and agree with the Lean model; permute . inverse and reshape . reshape-back return the STORED
+    object for every holder; sparse partial reshape and back is the permute that moves the reshaped modes last;
+    dense and sparse reshape / squeeze agree."""
+    name = "holders"
+    theorems = ("C07_permute_agree", "C07_permute_spec", "C07_permute_full_sparse", "C07_permute_full_ktensor",
+                "C07_permute_full_ttensor", "C07_permute_inverse_sparse", "C07_permute_inverse_ktensor",
+                "C07_permute_inverse_ttensor", "C07_permute_id_sparse", "C07_reshape_back_sparse",
+                "C07_sp_reshape_partial_back", "C07_reshape_wf_sparse", "C07_reshape_agree_dense_sparse",
+                "C07_reshape_full_sparse", "C07_squeeze_agree_dense_sparse", "C07_permute_wf_ttensor")
+
+    def gen(self, rng, tier):
+        out = []
+        shapes = [[3], [1], [2, 3], [1, 1], [3, 1, 2], [2, 3, 4], [1, 1, 1], [2, 1, 3, 2]]
+        shapes += [gen.shape(rng, 1, 4, 3) for _ in range(6 if tier == "quick" else 60)]
+        for s in shapes:
+            N = len(s)
+            R = rng.randint(1, 2)
+            k = {"weights": gen.int_values(rng, R, -3, 3, nonzero=True), "factors": [gen.matrix(rng, m, R) for m in s]}
+            if rng.random() < 0.15:
+                k["weights"] = [0] * R  # the zero array: nothing stored in the sparse holder
+            for o in orders_for(rng, N, tier):
+                om = rng.sample(range(N), rng.randint(1, N))
+                if rng.random() < 0.3:
+                    om = list(range(N - len(om), N))  # trailing modes in order: the round trip is the identity
+                out.append({"k": k, "order": o, "shape": rng.choice(factorizations(gen.numel(s))),
+                            "old_modes": om, "pshape": rng.choice(factorizations(gen.numel([s[m] for m in om]), 3))})
+        return out
+
+    def evaluate(self, cases):
+        built, reqs = [], []
+        for c in cases:
+            k = c["k"]
+            s = [len(f) for f in k["factors"]]
+            N, R = len(s), len(k["weights"])
+            K = gen.mk_ktensor(ttb, k["weights"], k["factors"])
+            D = K.full()
+            dj = dense_j(D)
+            subs = [i for i in gen.all_subs(s) if dense_at(dj)(i) != 0]
+            sj = {"shape": s, "subs": subs, "vals": [dense_at(dj)(i) for i in subs]}
+            S = gen.mk_sptensor(ttb, s, sj["subs"], sj["vals"])
+            core = np.zeros((R,) * N)
+            for r in range(R):
+                core[(r,) * N] = k["weights"][r]
+            T = ttb.ttensor(ttb.tensor(core, copy=True), [np.array(f, dtype=float).reshape(len(f), R) for f in k["factors"]])
+            tj = tucker_j(T)
+            built.append((K, D, S, T, dj, sj, tj))
+            reqs += [{"op": "dense_permute", "T": dj, "order": c["order"]},
+                     {"op": "sp_permute", "S": sj, "order": c["order"]},
+                     {"op": "k_permute", "K": k, "order": c["order"]},
+                     {"op": "t_permute", "T": tj, "order": c["order"]},
+                     {"op": "sp_reshape", "S": sj, "shape": c["shape"], "old_modes": None},
+                     {"op": "sp_reshape", "S": sj, "shape": c["pshape"], "old_modes": c["old_modes"]},
+                     {"op": "sp_permute", "S": sj,
+                      "order": [m for m in range(N) if m not in c["old_modes"]] + c["old_modes"]},
+                     {"op": "dense_squeeze", "T": dj}, {"op": "sp_squeeze", "S": sj}]
+        models = drive(reqs)
+        out = []
+        for n, (c, (K, D, S, T, dj, sj, tj)) in enumerate(zip(cases, built)):
+            m_pd, m_ps, m_pk, m_pt, m_rs, m_rp, m_back, m_sqd, m_sqs = models[9 * n: 9 * n + 9]
+            s = dj["shape"]
+            N = len(s)
+            o = np.array(c["order"], dtype=int)
+            inv = np.argsort(o)
+            om = c["old_modes"]
+            keep = [m for m in range(N) if m not in om]
+            tags = [f"N{N}", "zero" if not sj["subs"] else "nonzero", "trailing" if keep + om == list(range(N)) else "moved"]
+
+            def sq(r, rep):
+                if isinstance(r, (float, int, np.floating, np.integer)):
+                    return {"scalar": jval(r)}
+                return {"obj": dense_j(r) if rep == "dense" else sparse_j(r)}
+
+            r = call(lambda: {
+                "pd": dense_j(D.permute(o)), "ps": sparse_j(S.permute(o)), "pk": ktensor_j(K.permute(o)),
+                "pt": tucker_j(T.permute(o)),
+                "pk_full": dense_j(K.permute(o).full()), "pt_full": dense_j(T.permute(o).full()),
+                "t_full": dense_j(T.full()),
+                "inv_s": sparse_j(S.permute(o).permute(inv)), "inv_k": ktensor_j(K.permute(o).permute(inv)),
+                "inv_t": tucker_j(T.permute(o).permute(inv)),
+                "id_s": sparse_j(S.permute(np.arange(N))),
+                "rd": dense_j(D.reshape(tuple(c["shape"]))), "rs": sparse_j(S.reshape(tuple(c["shape"]))),
+                "rs_back": sparse_j(S.reshape(tuple(c["shape"])).reshape(tuple(s))),
+                "rp": sparse_j(S.reshape(tuple(c["pshape"]), np.array(om, dtype=int))),
+                "rp_back": sparse_j(S.reshape(tuple(c["pshape"]), np.array(om, dtype=int))
+                                    .reshape(tuple(s[m] for m in om), np.arange(len(keep), len(keep) + len(c["pshape"])))),
+                "sqd": sq(D.squeeze(), "dense"), "sqs": sq(S.squeeze(), "sparse"),
+            })
+            if "ok" not in r:
+                out.append(Verdict("violation", "a valid permute / reshape / squeeze of a holder raised", r, None, None, tags))
+                continue
+            r = r["ok"]
+            spec = spec_permute(s, dense_at(dj), c["order"])
+            bad = None
+            checks = [
+                (deep_eq({"ok": r["pd"]}, m_pd), "tensor.permute differs from the proved model"),
+                (deep_eq({"ok": r["ps"]}, m_ps), "sptensor.permute differs from the proved model"),
+                (deep_eq({"ok": r["pk"]}, m_pk), "ktensor.permute differs from the proved model"),
+                (deep_eq({"ok": r["pt"]}, m_pt), "ttensor.permute differs from the proved model"),
+                (deep_eq(r["t_full"], dj), "harness: the Tucker holder does not hold the array"),
+                (deep_eq(r["pd"], spec), "tensor.permute is not the permuted array"),
+                (deep_eq(sp_to_dense_j(r["ps"]), spec), "sptensor.permute is not the permuted array"),
+                (deep_eq(r["pk_full"], spec), "ktensor.permute does not denote the permuted array"),
+                (deep_eq(r["pt_full"], spec), "ttensor.permute does not denote the permuted array"),
+                (deep_eq(r["inv_s"], sj), "sptensor: permute then inverse permute changed the stored tensor"),
+                (deep_eq(r["inv_k"], ktensor_j(K)), "ktensor: permute then inverse permute changed the factors"),
+                (deep_eq(r["inv_t"], tj), "ttensor: permute then inverse permute changed core or factors"),
+                (deep_eq(r["id_s"], sj), "sptensor: the identity order changed the stored tensor"),
+                (deep_eq({"ok": r["rs"]}, m_rs), "sptensor.reshape differs from the proved model"),
+                (deep_eq(sp_to_dense_j(r["rs"]), r["rd"]), "sparse and dense reshape disagree"),
+                (deep_eq(r["rs_back"], sj), "sptensor: reshape and reshape back changed the stored tensor"),
+                (deep_eq({"ok": r["rp"]}, m_rp), "sptensor partial reshape differs from the proved model"),
+                (deep_eq({"ok": r["rp_back"]}, m_back),
+                 "sptensor: partial reshape and back is not the permute that moves the reshaped modes last"),
+                (keep + om != list(range(N)) or deep_eq(r["rp_back"], sj),
+                 "sptensor: partial reshape of the trailing modes and back changed the stored tensor"),
+                (deep_eq({"ok": r["sqd"]}, m_sqd), "tensor.squeeze differs from the proved model"),
+                (deep_eq({"ok": r["sqs"]}, m_sqs), "sptensor.squeeze differs from the proved model"),
+                (("scalar" in r["sqd"]) == ("scalar" in r["sqs"]), "squeeze: scalar for one holder, object for the other"),
+                (deep_eq(r["sqd"], r["sqs"]) if "scalar" in r["sqd"] and "scalar" in r["sqs"] else
+                 ("obj" not in r["sqs"] or "obj" not in r["sqd"] or deep_eq(sp_to_dense_j(r["sqs"]["obj"]), r["sqd"]["obj"])),
+                 "sparse and dense squeeze disagree"),
+            ]
+            for ok, what in checks:
+                if not ok:
+                    bad = what
+                    break
+            nontriv = gen.numel(s) > 1 and c["order"] != list(range(N))
+            if bad and bad.startswith("harness:"):
+                out.append(Verdict("corr", bad, r, None, None, tags))
+            else:
+                out.append(Verdict("violation" if bad else "ok", bad or "", r if bad else None, None, spec if bad else None,
+                                   tags, nontriv))
+        return out
+
+    def shrink(self, case):
+        return []
+
+
 def families():
-    return [Permute(), Reshape(), Squeeze(), Roundtrip()]
+    return [Permute(), Reshape(), Squeeze(), Roundtrip(), Holders()]
